@@ -107,7 +107,7 @@ func hasCJK(s string) bool {
 	return false
 }
 
-var englishWords = regexp.MustCompile(`Syntax Error|Pos \d|Empty input|cannot start|Missing closing|Unclosed string|expected after|Incomplete expression|Unexpected character|Syntax error|not allowed`)
+var englishWords = regexp.MustCompile(`Syntax Error|Pos \d|Empty input|cannot start|Missing closing|Unclosed string|expected after|Incomplete expression|Unexpected character|Syntax error|not allowed|invalid if syntax|must contain a statement block|keyword is used`)
 
 // lineCol recomputes (line, col) of a byte offset: line = 1 + newlines before it,
 // col = 1 + runes since the last newline.
